@@ -8,6 +8,7 @@ BUDGET = {"quick": dict(examples=16000, seconds=60), "thorough": dict(examples=4
 NONTRIVIAL = {'delivered-interrupt', 'end-with-obligations', 'wait-ended-by-timeout', 'pq-cancel'}
 PROFILES = [(4, 'wakeup'), (1, 'mixed')]
 RULE = ('Hypothesis-generated scenarios (profile wakeup 80%, mixed 20%) over resources, pools, buffers, object and priority queues with waiters that leave by timeout / interrupt / stop in the instant in which they were granted, rollbacks, holder drops, priority-queue cancels. Oracle: at the end of every simulated instant and at quiescence no process is blocked on a free resource, on a pool with units available, as getter on a buffer/queue with content or as putter on one with space. Non-trivial = a wait ended by timeout or interrupt, or a process ended with holdings/waits, or an object was cancelled from a priority queue. distinct = SHA-1 of the scenario text.')
+RULE = RULE + simprop.RULE_SUFFIX
 ASSUMPTIONS = ["trace oracles in pbt/simtrace.py (soundness rules DESIGN.md par. 2.1)",
                "operations whose documented precondition is false when reached are skipped by the interpreter "
                "(counted), never executed"]
